@@ -227,7 +227,14 @@ def concrete_grid(mod, sp, eng, deadline):
         vals = [v for v in range(lo, lo + width) if hi is None or v <= hi]
         grids.append(vals or [lo])
     out, seen = [], set()
-    for combo in itertools.product(*grids):
+    big = []
+    if len(names) <= 4:
+        # a second grid with values around 2**53 (where float64 stops representing every integer)
+        for n in names:
+            lo, hi = eng.var_bounds[n]
+            vals = [v for v in ((lo or 0) + 1, 2 ** 53, 2 ** 53 + 1) if hi is None or v <= hi]
+            big.append(vals)
+    for combo in itertools.chain(itertools.product(*grids), itertools.product(*big) if big else []):
         if time.time() > deadline:
             break
         ce = E.Engine("conc", values=dict(zip(names, combo)), choices=None)
